@@ -299,11 +299,18 @@ def parse_stream(text):
     return cases, stats, pre
 
 
+def exec_env():
+    e = dict(os.environ)
+    e["ADF_BDD_BIN"] = repo_bin("adf-bdd")
+    e["VERIF_TMP"] = os.path.join(BUILD, "tmp")
+    return e
+
+
 def run_exec(harness, requests_text, timeout):
     """runs the implementation on request lines; returns (text, status)"""
     try:
         p = subprocess.run([harness, "exec"], input=requests_text.encode(), stdout=subprocess.PIPE,
-                           stderr=subprocess.PIPE, timeout=timeout)
+                           stderr=subprocess.PIPE, timeout=timeout, env=exec_env())
         status = "ok" if p.returncode == 0 else f"exit {p.returncode}"
         return p.stdout.decode("utf-8", "replace"), status
     except subprocess.TimeoutExpired as e:
